@@ -31,6 +31,19 @@ var VerifRoot = func() string {
 	return "/verif"
 }()
 
+// RepoRoot is the working tree of mycoria the harness module is built against: the target of the replace line in
+// harness/go.mod (normally /repo; a scratch worktree when a seeded change is tried out side by side).
+var RepoRoot = func() string {
+	if b, err := os.ReadFile(filepath.Join(VerifRoot, "harness", "go.mod")); err == nil {
+		for _, ln := range strings.Split(string(b), "\n") {
+			if i := strings.Index(ln, "github.com/mycoria/mycoria => "); i >= 0 && strings.HasPrefix(strings.TrimSpace(ln), "replace") {
+				return strings.TrimSpace(ln[i+len("github.com/mycoria/mycoria => "):])
+			}
+		}
+	}
+	return "/repo"
+}()
+
 // Exit codes.
 const (
 	ExitOK        = 0
